@@ -29,16 +29,19 @@ REGISTRATION = {
             "sequences + records <= numCtx, so every state reachable from a new runner by any event list is coherent and "
             "no two live sequences share a slot (reachable_coherent_owned, Tie.C07.tree_reachable_coherent_owned; plain "
             "causal cache; a layout observed after a defrag is adopted only if the model's own check relocOK accepts it, "
-            "so there is no assumption about the hints); NewSequence truncation (newSequence_spec), "
+            "so there is no assumption about the hints); every token a processBatch pass samples is the scripted model's "
+            "answer to record ++ pending of its slot, i.e. what a fresh runner is shown (processBatch_outputs, "
+            "ideal_is_fresh; per pass, chained over a generation only by L2 fresh-equiv); NewSequence truncation (newSequence_spec), "
             "shift-frees-room (shift_ok_shape) and the record cut next to TruncateStop (stop_cut_record; L2 stop-cut) are "
             "theorems. Records of different slots never share "
             "storage (load/forward/shift leave every other slot unchanged: theorems; record-aliasing monitors on "
             "the real slots of both runners).",
     "design_ref": "DESIGN.md §5 C07, §6 F3/F22",
     "note": COMMON_NOTE + "Modelled, not verified: cell placement in kvcache.Causal (findStartLoc is modelled, "
-            "the layout after a defrag is taken from the real cache; C06 owns it; cell ranges are assumed to cover "
-            "the sequence), multimodal inputs / "
-            "SameBatch (text inputs only), which FindStop variant the tree has (probed on the real function; C14 owns it), the HTTP layer in the history driver (it replays the slot-loading block of completion; request "
+            "the layout after a defrag is taken from the real cache after the model has checked that it is a "
+            "relocation of its own cells; C06 owns it; cell ranges are assumed to cover the sequence), multimodal inputs / "
+            "SameBatch (text inputs only), which FindStop / CanResume variant the tree has (probed on the real functions; the "
+            "repaired variants are expected, an older one is reported as variant-regression), the HTTP layer in the history driver (it replays the slot-loading block of completion; request "
             "lifetimes - admission, client disconnects, who frees a slot when - are driven through the REAL "
             "(*Server).completion by TestVerifC07Handler with L2 monitors only, because flushPending's select "
             "between send and quit is not seeded), sampling beyond greedy. runner/llamarunner/cache.go: findLongestCacheSlot, "
@@ -46,9 +49,10 @@ REGISTRATION = {
             "real slots over request histories (records compared exactly with the model after every event; "
             "record-aliasing / coherence / prefix monitors); LoadCacheSlot and ShiftCacheSlot call llama.cpp "
             "unconditionally, so their remaining statements are replayed verbatim by the driver (sha1 of their "
-            "source recorded in the evidence) and llama.cpp's KV cache is a shadow (modelled, not verified). Panics are outside the property (F22: "
+            "source pinned in the check: drift fails closed) and llama.cpp's KV cache is a shadow (modelled, not verified). Panics are outside the property (F22: "
             "findBestCacheSlot dereferences nil when no free slot is older than now; mirrored by the model as "
-            "an explicit outcome, the harness advances fake time).",
+            "an explicit outcome, the harness advances fake time; the number of cases that pass by panicking on both "
+            "sides is stated in the evidence).",
 }
 
 MODULES = ["OllamaVerif.Properties.C07", "OllamaVerif.Properties.C07Batch", "OllamaVerif.Properties.C07Stop",
